@@ -31,6 +31,74 @@ fn judge_pubs(sc: &Scenario, ex: &Exec, auto_sync: bool) -> Option<Violation> {
     None
 }
 
+/// The same per-inode oracle riding on concurrent runs: stacked caches with
+/// auto_sync on, tiny capacities (every write maintains and evicts), an
+/// adversary deleting published files -- so that "the entry is already there,
+/// nothing will be published" decisions can be invalidated under the writer's
+/// feet.
+fn concurrent_ride_along(tape: &mut Tape, ctx: &RunCtx) -> RunOut {
+    use crate::conc::*;
+    use kismet_vfs::kernel::DrawPolicy;
+    let cfg = ConcCfg {
+        fronts: vec![2],
+        capacities: vec![0, 1, 2, 1_000_000],
+        max_parts: 3,
+        max_ops: 4,
+        max_keys: 2,
+        ops: vec!["get", "set", "put", "put", "ensure", "gou", "touch"],
+        adversary: true,
+        stale_mode: false,
+        freeze: false,
+        crash: false,
+        fire: vec![DrawPolicy::Const(1), DrawPolicy::FireMix(300)],
+        allow_shared_handle: true,
+        missing_dirs: false,
+        preexisting: true,
+        clock_small: true,
+        sampled_faults: false,
+    };
+    let run = run_conc(tape, &cfg, ctx.detail);
+    let mut out = RunOut::default();
+    out.sig = run.sig;
+    out.steps = run.steps;
+    out.sim_ns = run.sim_ns;
+    out.count("concurrent_runs", 1);
+    let auto_sync = matches!(run.main_spec, HandleSpec::Stack { auto_sync: true, .. });
+    let wroot = format!("{}/", run.w.dirs[0].path);
+    let mut v: Option<Violation> = None;
+    let mut npubs = 0;
+    {
+        let inv = run.w.inv.lock().unwrap();
+        for p in inv.pubs.iter().filter(|p| p.dest.starts_with(&wroot)) {
+            npubs += 1;
+            if auto_sync && p.dirty && v.is_none() {
+                v = Some(Violation::new("published-dirty", format!("(concurrent run) inode {} appeared under {} at step {} with unflushed data", p.ino, p.dest, p.step)));
+            }
+            if p.mode & 0o222 != 0 && v.is_none() {
+                v = Some(Violation::new("published-writable", format!("(concurrent run) inode {} appeared under {} with mode {:o}", p.ino, p.dest, p.mode)));
+            }
+        }
+        if let Some((n, m)) = inv.violations.iter().find(|(n, _)| *n == "immutable") {
+            if v.is_none() {
+                v = Some(Violation::new(n, m.clone()));
+            }
+        }
+    }
+    out.count("publications", npubs);
+    out.nontrivial = auto_sync && npubs > 0;
+    if auto_sync {
+        out.count("publications_with_auto_sync", npubs);
+    }
+    if let Some(mut v) = v {
+        v.detail = describe(&run, 200);
+        out.violation = Some(v);
+    }
+    if ctx.detail {
+        out.sample = Some(J::obj().set("mode", "concurrent ride-along").set("scenario", run.desc.clone()));
+    }
+    out
+}
+
 impl Check for C03 {
     fn id(&self) -> &'static str {
         "C03"
@@ -39,7 +107,7 @@ impl Check for C03 {
         "fault_enumeration"
     }
     fn rule(&self) -> String {
-        "every publishing path {Cache::set, put, set_temp_file, put_temp_file, ensure miss, get_or_update miss / Replace on a primary or secondary hit / Promote from a plain or sharded read-only level; raw plain/sharded set/put as the auto_sync-off baseline} x {plain, sharded} write side x pre-states of C02 (incl. maintenance in the same call) x value size (multi-chunk) x auto_sync on/off, sampled by seed. Oracle over the complete call trace, per inode: at each publication (rename/link onto a key name in the write cache) the inode's dirty bit is clear when auto_sync is on (a successful fsync/fdatasync follows its last write/truncate), its mode has no write bit, and afterwards it is never written, truncated or re-moded. Then every fsync of the fault-free trace fails in turn with EIO/ENOSPC/EDQUOT: the call must fail (or panic with the documented message) and that inode must never be published in the run. evaluations = scenarios; non-trivial = at least one publication with auto_sync on; distinct = scenario signature".to_string()
+        "every publishing path {Cache::set, put, set_temp_file, put_temp_file, ensure miss, get_or_update miss / Replace on a primary or secondary hit / Promote from a plain or sharded read-only level; raw plain/sharded set/put as the auto_sync-off baseline} x {plain, sharded} write side x pre-states of C02 (incl. maintenance in the same call) x value size (multi-chunk) x auto_sync on/off, sampled by seed. Oracle over the complete call trace, per inode: at each publication (rename/link onto a key name in the write cache) the inode's dirty bit is clear when auto_sync is on (a successful fsync/fdatasync follows its last write/truncate), its mode has no write bit, and afterwards it is never written, truncated or re-moded. Then every fsync of the fault-free trace fails in turn with EIO/ENOSPC/EDQUOT: the call must fail (or panic with the documented message) and that inode must never be published in the run. One run in 40 is instead a concurrent run (2-3 participants on a stacked cache with auto_sync, capacities 0-2 so that every write evicts, an adversary deleting published files) judged by the same publication oracle. evaluations = scenarios; non-trivial = at least one publication with auto_sync on; distinct = scenario signature".to_string()
     }
     fn runs(&self, tier: Tier) -> u64 {
         match tier {
@@ -48,6 +116,9 @@ impl Check for C03 {
         }
     }
     fn run(&self, tape: &mut Tape, ctx: &RunCtx) -> RunOut {
+        if tape.draw(40) == 39 {
+            return concurrent_ride_along(tape, ctx);
+        }
         let mut out = RunOut::default();
         let sc = draw_scenario(tape, &|o| matches!(o, Op::Set { .. } | Op::Put { .. } | Op::SetTemp { .. } | Op::PutTemp { .. } | Op::Ensure { .. } | Op::GetOrUpdate { .. }));
         let auto_sync = matches!(sc.spec, HandleSpec::Stack { auto_sync: true, .. });
